@@ -112,6 +112,8 @@ func (propC08) Gen(seed uint64, tier string) *Case {
 	for i := 0; i < n; i++ {
 		x := r.Intn(100)
 		switch {
+		case x < 4:
+			rec.Ops = append(rec.Ops, Op{K: "gostring"})
 		case x < 36:
 			rec.Ops = append(rec.Ops, Op{K: "render", W: wplan()})
 		case x < 54 && len(rec.Frags) > 0:
